@@ -131,7 +131,7 @@ func c12units(tier string) []mc.Unit {
 	}
 	// powers w^k of every primitive word w, exact and with one letter changed at every position
 	maxw := tier2(tier, 4, 6)
-	maxTotal := tier2(tier, 4096, 100000)
+	maxTotal := tier2(tier, 40000, 1000000)
 	maxMut := tier2(tier, 512, 4096)
 	for wl := 1; wl <= maxw; wl++ {
 		wl := wl
@@ -145,7 +145,11 @@ func c12units(tier string) []mc.Unit {
 						return
 					}
 				}
-				for _, total := range []int{2 * wl, 7 * wl, 64, 512, maxMut, maxTotal} {
+				totals := []int{2 * wl, 7 * wl, maxMut}
+				for t := 64; t <= maxTotal; t *= 2 {
+					totals = append(totals, t, t+t/2) // 64, 96, 128, 192, ... : every binary order of magnitude
+				}
+				for _, total := range totals {
 					k := total / wl
 					if k < 1 {
 						k = 1
@@ -153,6 +157,21 @@ func c12units(tier string) []mc.Unit {
 					s := strings.Repeat(w, k)
 					c12check(r, s, len(s) <= 64)
 					cnt++
+					// truncated (fractional) powers: w^k followed by every proper prefix of w
+					if wl > 1 && len(s) <= 2*maxMut {
+						for pl := 1; pl < wl; pl++ {
+							c12check(r, s+w[:pl], len(s) <= 64)
+							cnt++
+							// and every rotation of a short one
+							if len(s) <= 96 {
+								t := s + w[:pl]
+								for rot := 1; rot < len(t); rot++ {
+									c12check(r, t[rot:]+t[:rot], true)
+									cnt++
+								}
+							}
+						}
+					}
 					if len(s) <= maxMut {
 						bs := []byte(s)
 						for i := range bs {
